@@ -5102,9 +5102,9 @@ class DivSimplifyMacro(Macro):
 
         goal = args[0]
         lhs, rhs = goal.args
-        # case 1: t / t <--> 1
-        if lhs.arg1 == lhs.arg and rhs.is_one():
-            return Thm(goal)
+        # case 1: t / t <--> 1, for a non-zero constant t (x / 0 = 0 in the library)
+        if lhs.arg1 == lhs.arg and rhs.is_one() and not lhs.arg.is_constant():
+            raise VeriTException('div_simplify', "t / t = 1 requires t to be a non-zero constant")
         # case 2: t / 1 <--> t
         if lhs.arg1 == rhs and lhs.arg.is_one():
             return Thm(goal)
